@@ -24,6 +24,8 @@ def _workaround_for_static_import_finders():
     import pycparser.lextab
 
 CDEF_SOURCE_STRING = "<cdef source string>"
+_SIMPLE_ESCAPES = {'n': 10, 't': 9, 'r': 13, '0': 0, '\\': 92, "'": 39, '"': 34,
+                   'a': 7, 'b': 8, 'f': 12, 'v': 11, '?': 63}
 _r_comment = re.compile(r"/\*.*?\*/|//([^\n\\]|\\.)*?$",
                         re.DOTALL | re.MULTILINE)
 _r_define  = re.compile(r"^\s*#\s*define\s+([A-Za-z_][A-Za-z_0-9]*)"
@@ -894,9 +896,11 @@ class Parser:
                         elif s.lower()[0:2] == '0b':
                             return int(s, 2)
                 raise CDefError("invalid constant %r" % (s,))
-            elif s[0] == "'" and s[-1] == "'" and (
-                    len(s) == 3 or (len(s) == 4 and s[1] == "\\")):
-                return ord(s[-2])
+            elif s[0] == "'" and s[-1] == "'" and len(s) == 3:
+                return ord(s[1])
+            elif (s[0] == "'" and s[-1] == "'" and len(s) == 4 and s[1] == "\\"
+                      and s[2] in _SIMPLE_ESCAPES):
+                return _SIMPLE_ESCAPES[s[2]]
             else:
                 raise CDefError("invalid constant %r" % (s,))
         #
